@@ -350,33 +350,67 @@ def check(repo, res, tier):
     res.check(not writes, "R-PURE", jf, "initial-values-untouched", "_jump never rebinds the initial state/time", "_jump rebinds the initial values: %s" % [norm(w) for w in writes])
 
     # ---------------------------------------------------------------- R-MEAN
+    _check_mean(repo, res, cls)
+
+
+def _check_mean(repo, res, cls):
+    """simulate_param / solve_determ interpreted with the integration replaced by a recorder that returns a different array on
+    every call: the list returned holds exactly `iteration` runs, untouched, and the mean reported is their element-wise mean"""
+    from ..core.absint import Abs, Obj, Tok, Raised
+    from ..core.algebra import Undecided
+    from ..core.numarr import NumArr, num_summaries
     for name in ("simulate_param", "solve_determ"):
         f = repo.resolve_method(cls, name)
-        cfg, df = cfg_of(f), dataflow_of(f)
-        rets = [r for r in C.returns_of(f) if isinstance(r.ast.value, ast.Tuple) and len(r.ast.value.elts) == 2]
-        if not rets:
-            res.violated("R-MEAN", f, "returns-pair", "%s has no `return mean, runs`" % name)
-            continue
-        for r in rets:
-            y, lst = r.ast.value.elts
-            d = df.single_def(r, y.id) if isinstance(y, ast.Name) else None
-            ok, why = False, "mean is not computed from the returned list"
-            if d is not None and isinstance(d.value, ast.Call) and isinstance(d.value.func, ast.Attribute) and d.value.func.attr == "mean":
-                inner = d.value.func.value
-                ax = const_value(kwarg(d.value, "axis", 0))
-                if isinstance(inner, ast.Call) and dotted(inner.func) in ("np.dstack", "np.stack", "np.array") and inner.args:
-                    stack_axis = {"np.dstack": 2, "np.array": 0}.get(dotted(inner.func), const_value(kwarg(inner, "axis", 1), 0))
-                    same = norm(inner.args[0]) == norm(lst)
-                    same_defs = isinstance(lst, ast.Name) and {x.idx for x in df.reaching(d.node, lst.id)} == {x.idx for x in df.reaching(r, lst.id)}
-                    ok = same and same_defs and ax == stack_axis
-                    why = "mean over %s of the returned list, along the stacking axis %s" % (dotted(inner.func), ax) if ok else \
-                        "mean is %s: same list=%s, list unchanged in between=%s, axis %s vs stacking axis %s" % (norm(d.value), same, same_defs, ax, stack_axis)
-            res.check(ok, "R-MEAN", f, "mean-of-returned-runs", why, why, node=d.stmt if d is not None else r.ast)
-        # every element of the list is one integration of the requested grid
-        lst_name = rets[0].ast.value.elts[1].id if isinstance(rets[0].ast.value.elts[1], ast.Name) else None
-        if lst_name:
-            srcs = [d for d in df.strong_defs(rets[0], lst_name)]
-            serial = [d for d in srcs if isinstance(d.value, ast.ListComp)]
-            ok = bool(serial) and all(norm(d.value.elt) == "self.integrate(%s)" % f.params[1] and norm(d.value.generators[0].iter) == "range(%s)" % f.params[2] for d in serial)
-            res.check(ok, "R-MEAN", f, "runs", "serial runs = [self.integrate(t) for each iteration]",
-                      "the list of runs is built as %s" % [norm(d.value) for d in serial], node=serial[0].stmt if serial else None)
+        if f is None:
+            raise AnalysisError("%s vanished" % name)
+        for iteration in (1, 2, 5):
+            for full in (True, False):
+                tag = "mean-of-returned-runs(iteration=%d,full_output=%s)" % (iteration, full)
+                calls = []
+
+                def integrate(me_, t, *a, **k):
+                    kk = len(calls)
+                    calls.append(t)
+                    return NumArr([[10.0 * kk + 1.0 + r + 0.25 * c * (kk + 1) for c in range(2)] for r in range(3)])
+                me = Obj("Model", _stochasticParam={"beta": Obj("rv_frozen", tag="B")}, _odeSolution=None)
+                summ = dict(num_summaries())
+                summ["Model.integrate"] = integrate
+                grid = NumArr([1.0, 2.0, 3.0])
+                try:
+                    ab = Abs({}, {}, summ, me, {}, budget=50000)
+                    ab.class_methods = set(repo.all_methods(cls))
+                    ab.module = f.module
+                    kind, out = ab.run_function(f.node, {"t": grid, "iteration": iteration, "parallel": False, "full_output": full})
+                except Undecided as e:
+                    res.undecided("R-MEAN", f, tag, "outside the modelled subset: %s" % e)
+                    continue
+                problems = []
+                if kind != "return":
+                    problems.append("raises %s" % out)
+                else:
+                    Y = out[0] if (full and isinstance(out, tuple)) else out
+                    runs = out[1] if (full and isinstance(out, tuple) and len(out) == 2) else None
+                    if full and runs is None:
+                        problems.append("full_output does not return (mean, runs)")
+                    # which recorded integrations are runs: the last `iteration` ones (an extra warm-up integration before them is allowed)
+                    fresh = [NumArr([[10.0 * kk + 1.0 + r + 0.25 * c * (kk + 1) for c in range(2)] for r in range(3)]) for kk in range(len(calls))]
+                    cand = [fresh[len(calls) - iteration:], fresh[:iteration]] if len(calls) >= iteration else []
+                    ok_mean = False
+                    for c_ in cand:
+                        want = [[sum(m.data[r].data[cc] for m in c_) / len(c_) for cc in range(2)] for r in range(3)]
+                        got = Y.tolist() if isinstance(Y, NumArr) else Y
+                        if isinstance(got, list) and len(got) == 3 and all(isinstance(rw, list) and len(rw) == 2 and all(abs(a_ - b_) < 1e-9 for a_, b_ in zip(rw, wr)) for rw, wr in zip(got, want)):
+                            ok_mean = True
+                            if runs is not None:
+                                rl = list(runs) if isinstance(runs, (list, tuple)) else None
+                                if rl is None or len(rl) != iteration:
+                                    problems.append("%r runs are returned for iteration=%d" % (len(rl) if rl is not None else runs, iteration))
+                                elif not all(isinstance(a_, NumArr) and a_.tolist() == b_.tolist() for a_, b_ in zip(rl, c_)):
+                                    problems.append("the runs returned are not the integrations the mean was taken over (or were modified afterwards): %s" % [a_.tolist() if isinstance(a_, NumArr) else a_ for a_ in rl][:2])
+                            break
+                    if not ok_mean:
+                        problems.append("the mean reported is %s, not the element-wise mean of the %d runs" % (Y.tolist() if isinstance(Y, NumArr) else Y, iteration))
+                    if any(not (isinstance(t_, NumArr) and t_.tolist() == [1.0, 2.0, 3.0]) for t_ in calls):
+                        problems.append("a run is integrated over a different grid than requested")
+                res.check(not problems, "R-MEAN", f, tag, "the mean is the element-wise mean of exactly the runs returned beside it, each an integration of the requested grid",
+                          "; ".join(problems[:2]), node=f.node)
